@@ -60,15 +60,15 @@ macro "admission_id_case" : tactic => `(tactic| (
     grind)))
 
 section
-variable {s s' : Shared} {rest stack' : List Frame} {id : Nat} {late bf : Bool} {ops : List Op}
+variable {s s' : Shared} {rest stack' : List Frame} {id : Nat} {late bf : Bool} {ops : List Op} {sk : List Nat}
   {A B C A' B' C' : Nat} {seen : Word} {r : Res} {ret : Option Res} {i : Nat}
 
 set_option hygiene false in
 macro "id_lemma " n:ident pc:term : command => `(
-  theorem $n (hs : stepThread s (⟨$pc, id, late, ops, bf⟩ :: rest) = some (s', stack'))
-    (d1 : Delta (Frame.pre i) (⟨$pc, id, late, ops, bf⟩ :: rest) stack' A A')
-    (d2 : Delta (Frame.okPend i) (⟨$pc, id, late, ops, bf⟩ :: rest) stack' B B')
-    (d3 : Delta (Frame.errPend i) (⟨$pc, id, late, ops, bf⟩ :: rest) stack' C C')
+  theorem $n (hs : stepThread s (⟨$pc, id, late, ops, bf, sk⟩ :: rest) = some (s', stack'))
+    (d1 : Delta (Frame.pre i) (⟨$pc, id, late, ops, bf, sk⟩ :: rest) stack' A A')
+    (d2 : Delta (Frame.okPend i) (⟨$pc, id, late, ops, bf, sk⟩ :: rest) stack' B B')
+    (d3 : Delta (Frame.errPend i) (⟨$pc, id, late, ops, bf, sk⟩ :: rest) stack' C C')
     (h : IdN i s A B C) : IdN i s' A' B' C' := by
   admission_id_case)
 
@@ -96,7 +96,7 @@ theorem idN_stepThread {i : Nat} {s s' : Shared} {stack stack' : List Frame}
   cases stack with
   | nil => simp [stepThread] at hs
   | cons f rest =>
-    obtain ⟨pc, id, late, ops, bf⟩ := f
+    obtain ⟨pc, id, late, ops, bf, sk⟩ := f
     cases pc
     · exact id_run hs d1 d2 d3 h
     · exact id_sStatus hs d1 d2 d3 h
